@@ -91,11 +91,31 @@ def bits_of(fields, values):
         out.append(format(v, '0%db' % w))
     return ''.join(out)
 
+# the largest value of a field that is still a meaningful measurement, and its "not available" code
+MAX_VALID = {'hour': 23, 'minute': 59, 'second': 59, 'month': 12, 'day': 31, 'year': 9999, 'heading': 359, 'course': 3599,
+             'speed': 1022, 'lon': 180 * 600000, 'lat': 90 * 600000, 'turn': 127, 'altitude': 4094, 'status': 14, 'epfd': 8,
+             'maneuver': 2, 'shiptype': 99, 'aidtype': 31, 'draught': 255}
+NOT_AVAILABLE = {'hour': 24, 'minute': 60, 'second': 60, 'month': 0, 'day': 0, 'year': 0, 'heading': 511, 'course': 3600,
+                 'speed': 1023, 'lon': 181 * 600000, 'lat': 91 * 600000, 'turn': 128, 'altitude': 4095, 'status': 15, 'epfd': 0,
+                 'maneuver': 0, 'shiptype': 0, 'aidtype': 0}
+def _scaled(name, w, table):
+    v = table.get(name.rstrip('0123456789'))
+    if v is None: return None
+    if name in ('lon', 'lat') and w <= 18: v //= 1000           # the 1/10-minute forms
+    if name == 'speed' and w == 6: v = 62 if table is MAX_VALID else 63
+    if name == 'course' and w == 9: v = 359 if table is MAX_VALID else 511
+    return v & ((1 << w) - 1)
+
 def rand_values(rng, fields, mode='mixed'):
     vals = {}
     for name, w in fields:
         if name == 'type': continue
-        if mode == 'random': vals[name] = rng.getrandbits(w)
+        if mode in ('maxvalid', 'unavailable'):
+            # every field at the edge of its meaningful range (23:59:59 on 31 December ...) / every field at its
+            # "not available" code: the corners where special-casing of one field by its neighbours lives
+            v = _scaled(name, w, MAX_VALID if mode == 'maxvalid' else NOT_AVAILABLE)
+            vals[name] = v if v is not None else (((1 << w) - 1) if mode == 'maxvalid' else 0)
+        elif mode == 'random': vals[name] = rng.getrandbits(w)
         elif mode == 'zeros': vals[name] = 0
         elif mode == 'ones': vals[name] = (1 << w) - 1
         elif mode == 'decimal':      # plausible traffic: identities with decimal structure, other fields random
